@@ -91,3 +91,20 @@ def variant_truth(pc, term_pred, variant, siblings):
     if others and excluded >= set(others):
         return True
     return None
+
+def reconstructs(v, base):
+    """v is `base` itself, or `base` taken apart and put together again (`Err(e) => return Err(e)`, `Ok(Some(x)) => Ok(Some(x))`),
+    or the propagation of base's error by `?`."""
+    if v == base:
+        return True
+    if v[0] == 'tryerr' and v[1] == base:
+        return True
+    if v[0] == 'ctor' and len(v[2]) == 1:
+        return reconstructs(v[2][0], ('variant', base, v[1], 0))
+    if v[0] == 'ctor' and not v[2] and v[1] in ('None',):
+        return True if base[0] == 'variant' else False
+    return False
+
+def search_atoms(pc, kind):
+    """(truth, source, element, conditions) of the any / position / all atoms of a path condition"""
+    return [(t, a[1], a[2], a[3]) for a, t in pc if a[0] == kind]
